@@ -13,8 +13,10 @@ RULE = ("acyclic description sets (2-8 ids, flat and dotted, parents among earli
         "description generated structurally (parent?, fg, bg in {inherit, '-', name, int, cube, gray}, modifiers "
         "on/off) and written in one of its admissible string forms; every set is registered in 3 random splits "
         "between the initial nested dict, later add_new_items batches and Palette subclasses with SYNTAX_DEFAULTS, "
-        "in random order, later batches also carrying conflicting descriptions for already registered ids; 10% "
-        "of the histories run on the global configuration with a synced palette, 10% with no_color. After the "
+        "in random order, later batches also carrying conflicting descriptions for already registered ids; half of the "
+        "histories also keep an early palette with accessors for ids registered only later; 10% of the histories "
+        "run on the global configuration with synced palettes and end with a swap to another global "
+        "configuration (synced palettes and ak.color.global_palette must follow), 10% with no_color. After the "
         "construction and after every batch the formatter of every id is compared (through the SGR terminal "
         "model) with the harness' own resolver; the same through palette accessors and get_palette()[id]. "
         "Non-trivial = set with an inheritance chain of length >= 3 or a chain through a late / missing id; "
@@ -26,7 +28,7 @@ TIERS = {
     "quick": {"shards": 4, "cases": 1000, "timeout": 300},
     "thorough": {"shards": 16, "cases": 6000, "timeout": 3000},
 }
-FLOORS = {"quick": {"distinct_nontrivial": 1500, "formatter_checks": 40000, "palette_accessor_checks": 3000,
+FLOORS = {"quick": {"global_configuration_swaps": 300, "distinct_nontrivial": 1500, "formatter_checks": 40000, "palette_accessor_checks": 3000,
                     "pending_chains_resolved_later": 200, "conflicting_late_descriptions_ignored": 1000,
                     "synced_palette_checks": 200, "no_color_checks": 1000},
           "thorough": {"distinct_nontrivial": 60000, "formatter_checks": 2000000, "palette_accessor_checks": 150000,
@@ -111,12 +113,22 @@ def gen_set(rng, prefix, dangling=False):
                                           descr=prefix + "NEVER.REGISTERED:RED", initial_only=rng.random() < 0.5)
         items[prefix + "DANGLING2"] = dict(parent=prefix + "DANGLING", fg='inherit', bg=('c', 4), mods={'bold': True},
                                            descr=prefix + "DANGLING:/BLUE:bold", initial_only=rng.random() < 0.5)
-    if rng.random() < 0.25:
-        # the explicit configuration overrides a built-in id
-        b = rng.choice(list(BUILT))
+    if rng.random() < 0.5:
+        # the explicit configuration overrides a built-in id (often TEXT, the fallback colour)
+        b = rng.choice(list(BUILT) + ["TEXT"] * 5)
         fg, fgs = color_spec(rng)
         bg, bgs = color_spec(rng)
-        items[b] = dict(parent=None, fg=fg, bg=bg, mods={}, descr=render_descr(rng, None, fgs, bgs, {}),
+        def reaches(sid, target):
+            seen = set()
+            while sid is not None and sid not in seen:
+                if sid == target:
+                    return True
+                seen.add(sid)
+                sid = items[sid]['parent'] if sid in items else None
+            return False
+        free = [i for i in ids if not reaches(i, b)]
+        parent = rng.choice(free) if (b != "TEXT" and free and rng.random() < 0.4) else None
+        items[b] = dict(parent=parent, fg=fg, bg=bg, mods={}, descr=render_descr(rng, parent, fgs, bgs, {}),
                         initial_only=True)
     if rng.random() < 0.5 and any(it['parent'] == late_missing for it in items.values()):
         # the missing id gets registered in some later batch
@@ -249,6 +261,7 @@ def run_history(ctx, items, plan, mode, case):
                     fail("synced-palette-is-stale" if synced else "palette-accessor-differs",
                          {"id": sid, "step": tag, "shown": repr(got), "expected": repr(want)})
 
+    palettes = []
     try:
         init = {i: items[i]['descr'] for i in plan["init"]}
         try:
@@ -256,14 +269,24 @@ def run_history(ctx, items, plan, mode, case):
         except Exception as err:
             fail("valid-configuration-rejected", {"type": type(err).__name__, "msg": str(err)[:200], "init": init})
         registered |= set(init)
-        palettes = []
+        if plan.get("early_palette"):
+            # a component palette obtained before most ids are known; it is obtained again after every step
+            _UNIQ[0] += 1
+            acc_all = {"e%d" % k: sid for k, sid in enumerate(sorted(items))}
+            body = {acc: ConfColor(sid) for acc, sid in acc_all.items()}
+            early = type("VfEarlyPalette%d" % _UNIQ[0], (Palette,), body)
+            try:
+                early(conf, mode == "no_color")
+            except Exception as err:
+                fail("palette-construction-raises", {"type": type(err).__name__, "msg": str(err)[:150]})
+            palettes.append((early, acc_all, False))
         if mode == "global":
             akcolor.set_global_colors_config(conf)
             made_global = True
         verify(conf, "init", palettes)
         for bi, (kind, batch, conflicts) in enumerate(plan["batches"]):
             new = {i: items[i]['descr'] for i in batch}
-            for i in conflicts:
+            for i in ([] if kind == "palette-synced" else conflicts):
                 if i in registered and i not in new:
                     new[i] = "MAGENTA/CYAN:blink"
                     ctx.count("conflicting_late_descriptions_ignored")
@@ -288,6 +311,32 @@ def run_history(ctx, items, plan, mode, case):
                 fail("registration-raises", {"type": type(err).__name__, "msg": str(err)[:200], "batch": new})
             registered |= set(batch)
             verify(conf, "batch%d" % bi, palettes)
+        if mode == "global" and plan.get("swap") is not None:
+            # another global configuration is installed: the synced palettes of this history register
+            # their defaults in it (in the order they were created) and must reflect the result
+            init2 = {i: items[i]['descr'] for i in plan["swap"]}
+            conf2 = ColorsConfig(nest(init2))
+            akcolor.set_global_colors_config(conf2)
+            synced_palettes = [p for p in palettes if p[2]]
+            registered.clear()
+            registered.update(init2)
+            for _pcls, accessors, _ in synced_palettes:
+                registered.update(accessors.values())
+            unresolved_before.clear()
+            verify(conf2, "swap", synced_palettes)
+            ctx.count("global_configuration_swaps")
+            gp = getattr(akcolor, "global_palette", None)
+            if gp is not None:
+                for attr, sid in (("text", "TEXT"), ("name", "NAME"), ("keyword", "KEYWORD"), ("ok", "OK"),
+                                  ("warn", "WARN"), ("error", "ERROR")):
+                    exp = resolve(items, sid, registered)
+                    want = sgr.DEFAULT if exp == 'UNRES' else (
+                        exp[0], exp[1], frozenset(e for e, v in exp[2].items() if v))
+                    got = shown_state(getattr(gp, attr))
+                    ctx.count("synced_palette_checks")
+                    if got != want:
+                        fail("synced-palette-is-stale", {"palette": "ak.color.global_palette", "attr": attr,
+                                                         "shown": repr(got), "expected": repr(want)})
     except Stop:
         pass
     finally:
@@ -297,7 +346,8 @@ def run_history(ctx, items, plan, mode, case):
             # recursion depth would grow with the number of histories run in this process
             registry = getattr(akcolor, '_GSYNCED_PALETTES', None)
             if isinstance(registry, dict):
-                registry.clear()
+                for pcls, _acc, _synced in palettes:
+                    registry.pop(pcls, None)
             akcolor.set_global_colors_config(None)
     if nontrivial:
         ctx.nontrivial(sig_of([{k: v['descr'] for k, v in items.items()}, plan]))
@@ -320,7 +370,11 @@ def make_plan(rng, items, mode):
         batches.append([rng.choice(kinds), batch, conflicts])
     for i in late:
         batches.insert(rng.randint(0, len(batches)), ["add", [i], []])
-    return {"init": init, "batches": batches}
+    swap = None
+    if mode == "global" and rng.random() < 0.7:
+        pool = [i for i in items if not items[i].get('late')]
+        swap = [i for i in pool if items[i]['initial_only'] or rng.random() < 0.4]
+    return {"init": init, "batches": batches, "early_palette": rng.random() < 0.5, "swap": swap}
 
 
 def run_shard(ctx):
